@@ -90,6 +90,11 @@ def items():
         fits(skel(expression), Pos::UnaryOperand) ==> fits(skel(r), Pos::UnaryOperand),
         unop_id(*unop) == UN_MINUS ==> !(skel(r) is Un && skel(r)->Un_0 == UN_MINUS), //# C01.double_minus_guard
 """),
+        Fn(TU, "prepend_newline_indent", mode="stub", contract="ensures node.same_sem(&r),",
+           note="iterator chain building [newline, indent, comment]* newline indent; only trivia changes (UpdateLeadingTrivia interface)"),
+        Fn(EX, "move_operand_below_comment", contract="""
+    ensures skel(r) == skel(expression), begins_with_bracket_string(r) == begins_with_bracket_string(expression), //# C02.unary_operand_same
+"""),
         Fn(EX, "format_expression", contract="""
     requires wf(skel(*expression)),
     ensures expr_post(*expression, r, ExpressionContext::Standard), //# C05.format_expression
@@ -222,6 +227,7 @@ LABELS = {
     "C05.hanging_lhs_context": dict(props=["C05", "C02"], text="the context the hanging path gives to a left operand soundly describes `left operand of this operator` (in particular BinaryLHSExponent for `^`)"),
     "C05.prefix_keeps_parens": dict(props=["C05", "C02"], text="format_prefix (both layout paths): a parenthesised prefix expression keeps its parentheses; operator tree preserved"),
     "C01.bracket_string_visible": dict(props=["C01"], text="format_expression: if the formatted expression begins with a long-bracket string token, the input was recognisable as such by is_brackets_string (through parentheses, type assertions, left operands)"),
+    "C02.unary_operand_same": dict(props=["C02", "C05"], text="move_operand_below_comment (operand of a unary operator that is followed by a line comment goes to a new line): only trivia changes"),
     "C01.bracket_string_visible_internal": dict(props=["C01"], text="same, for format_expression_internal (induction)"),
     "C01.bracket_string_visible_hanging": dict(props=["C01"], text="same, for the hanging formatters format_hanging_expression_ / hang_binop_expression, which format_expression_internal falls back to when a line comment sits at a binary operator"),
     "C01.is_brackets_string": dict(props=["C01", "C04"], text="is_brackets_string is true exactly for expressions that will print with a leading long-bracket string (any level: `[[`, `[=[`, ...)"),
